@@ -31,6 +31,8 @@ theorem C05_trans_prepareCFiltersQuery (q : T_neutrino_cfiltersQuery)
       (f6 (toU 32 (q.stopHeight - q.startHeight + 1)) q.stopHash).2.2 = false ∧
       q.filterHeaders = (f6 (toU 32 (q.stopHeight - q.startHeight + 1)) q.stopHash).1 ∧
       len q.filterHeaders = ((toU 32 (q.stopHeight - q.startHeight + 1) : Nat) : Int) + 1 ∧
+      q.headerIndex = prepareCFiltersQuery_loop1 f1 (f4 (toU 32 (q.stopHeight - q.startHeight + 1)) q.stopHash).1
+        (rangeUp 1 (len (f4 (toU 32 (q.stopHeight - q.startHeight + 1)) q.stopHash).1)) [] ∧
       q.targetHash = blockHash ∧ q.filterType = ft ∧ q.cs = self :=
   trans_prepare_ok blockHash ft bt mb self f1 f2 f3 f4 f5 f6 q h
 
@@ -59,6 +61,16 @@ theorem C05_trans_lookup_error (h : (f3 blockHash).2.2 = true ∨ f2.2 = true) :
     prepareCFiltersQuery blockHash ft bt mb self f1 f2 f3 f4 f5 f6 = (none, true) :=
   trans_prepare_lookup_err blockHash ft bt mb self f1 f2 f3 f4 f5 f6 h
 end
+
+/-- **The header index of a prepared query** (the loop over `blockHeaders[1 …]`): it holds exactly
+the hashes of the awaited blocks, and the position it stores for a hash is a position of the private
+header slice, at or after 1, that holds this very hash - the code-level fact `C05_index_aligned`
+needs (a response naming block `b` is checked against the headers at `b`'s own position). -/
+theorem C05_trans_headerIndex (f1 : T_wire_BlockHeader → Atom) (bhs : List T_wire_BlockHeader) (k : Atom) :
+    let ix := prepareCFiltersQuery_loop1 f1 bhs (rangeUp 1 (len bhs)) []
+    (mhas ix k = true ↔ ∃ i : Int, 1 ≤ i ∧ i < len bhs ∧ f1 (idx bhs i) = k) ∧
+    (mhas ix k = true → 1 ≤ mlookup ix k ∧ mlookup ix k < len bhs ∧ f1 (idx bhs (mlookup ix k)) = k) :=
+  trans_headerIndex f1 bhs k
 
 /-! the hypotheses are satisfiable: a chain of 6 blocks (headers 0..5 with hash = height + 100),
 target at height 3, forward batch of 2 -/
